@@ -290,10 +290,12 @@ def run(ctx):
     ctx.trusted += ['Coq 8.16.1 kernel (coqc); vm_compute only on closed terms inside proofs',
                     'coq/C12/Locate.v: hand-written model of geometry.py / mulgrids.py location code over exact rationals (validated by correspondence on this run, not verified against the Python text)',
                     'extraction: ExtrOcamlBasic + ExtrOcamlString, OCaml 4.13.1, ocaml/main.ml',
+                    'coq/C12/Drv.v: wire parser/printer of the extracted model; it multiplies every coordinate, elevation and distance of a geo/trk case by the largest denominator of the geometry (exact) so that the rational arithmetic runs on integers, and divides printed coordinates again - every modelled function is homogeneous in the lengths',
                     'oracle: tools/props/c12_exact.py (exact rational point-in-polygon with a vertical ray, exact segment clipping) and c12_oracle.py',
                     'float.as_integer_ratio (exact conversion of doubles to rationals)']
     ctx.assumptions += ['the model computes in exact rationals, the implementation in doubles: agreement is claimed for points at least the stated tolerance away from every column edge and quadtree split line',
                         'completeness of the aided searches (search_aids_agree) is proved under the explicit hypotheses tiling and connected_near; both are evaluated per point on every generated geometry (see hypotheses_met)',
+                        'bbox = bounds_of_points(polygon) (hypothesis of plain_search_exhaustive / search_aids_agree): the driver tabulates exactly that, and the correspondence of bounds_of_points and of near_point-dependent answers checks it against column.bounding_box',
                         'column_track: the theorems cover the assembly (selection, entry/exit pairing, clip dropping, sorting) over abstract per-column intersection lists; line_polygon_intersections itself is only tested',
                         'blocks: a block spans its whole layer interval (PyTOUGH convention, also used by block_contains_point); the top block reaches up to the column surface']
     ctx.stage()
